@@ -71,9 +71,17 @@ def judge(case, obs):
         for s in net.socks:
             reply_fault_failed_call = (isinstance(s.fault_kind, tuple) and s.fault_kind[0] == "rline" and out[0] == "exc"
                                        and out[1] not in ("MemcacheIllegalInputError", "KeyError"))   # KeyError: item protocol on a miss
+            # a read whose FIRST reply line was a memcached error line failed on that connection even when ignore_exc
+            # turned the failure into a miss (C07 calls these 'erroneous replies'): the call returns, the connection goes
+            swallowed_error_line = (isinstance(s.fault_kind, tuple) and s.fault_kind[0] == "rline" and s.fault_kind[1] == 0
+                                    and s.fault_kind[2] in ("error", "client_error", "server_error", "long_server_error")
+                                    and case["cfg"].get("ignore_exc") and out[0] == "ret" and rec["recv"] > 0
+                                    and op[0] in ("get", "gets", "gat", "gats", "get_many", "gets_many"))
+            if swallowed_error_line:
+                stats["swallowed"] = stats.get("swallowed", 0) + 1
             if s.fault_call == i and s.fault_kind is not None and (
                     (hard(s.fault_kind) and (not isinstance(s.fault_kind, tuple) or s.trunc_effective))
-                    or reply_fault_failed_call):     # a nonsensical reply line that made the call raise: the call failed on it
+                    or reply_fault_failed_call or swallowed_error_line):     # a nonsensical reply line that made the call raise: the call failed on it
                 # 'a connection on which a call failed': the call must actually have failed on it.  A truncated /
                 # closed stream after a call that did not wait for a reply is invisible to the client.
                 certain = True        # a hard error on a socket call, or reply bytes actually withheld
@@ -148,6 +156,7 @@ def record(res, case, o, nt_key, sample=False):
     res.count("faults_fired", fired)
     res.count("reuses_observed", stats["reuse"])
     res.count("expiries_observed", stats["expiry"])
+    res.count("error_lines_swallowed_by_ignore_exc", stats.get("swallowed", 0))
     res.count("failed_sockets_tracked", stats["failed"])
     res.count("used_zero_checks", len(o.calls))
     res.case(nt_key, {"cfg": case["cfg"], "ops": [repr(op)[:60] for op in case["ops"]][:8], "faults": repr(case["faults"]),
@@ -168,6 +177,9 @@ def cfgs():
                 if ign:
                     c["ignore_exc"] = True
                 out.append(c)
+    # timeouts that are not whole seconds
+    out.append({"pool_idle_timeout": 2.5})
+    out.append({"pool_idle_timeout": 0.5, "max_pool_size": 1})
     return out
 
 
@@ -196,7 +208,7 @@ def systematic(res, cfg, label, op, tier, rng):
 
 def gap_grid(res, cfg, rng):
     T = cfg.get("pool_idle_timeout", 0)
-    gaps = [0, 4, 5, 6, 50] if T else [0, 1, 1000]
+    gaps = ([0, 4, 5, 6, 50] if T == 5 else [0, T - 0.125, T, T + 0.125, int(T) + 1, 20 * T]) if T else [0, 1, 1000]
     opsel = [("get", ("h1",), {}), ("set", ("k", b"v"), {"noreply": False}), ("set", ("k", b"v"), {"noreply": True}),
              ("get_many", (["h1", "h2"],), {})]
     for g1 in gaps:
@@ -216,7 +228,7 @@ def slow_calls(res, cfg):
     if not T:
         return
     for slow in (1, 4, 9):
-        for gap in (0, 2, 5, 6):
+        for gap in ((0, 2, 5, 6) if T == 5 else (0, T - 0.125, T, T + 0.125)):
             ops = [("get", ("h1",), {}), ("advance", (gap,), {}), ("get", ("h2",), {})]
             case = {"stack": "pooled", "servers": [("mc1", 11211)], "cfg": cfg, "ops": ops, "faulted": 0, "faults": {},
                     "seg": ("whole",), "advance": 0, "slow": {0: slow}}
